@@ -461,6 +461,9 @@ func (c *Ctx) symConv(fr *frame, x *Sym, to types.BasicKind) value {
 		return c.mkval(b.FPFromFP(x.T, so), to)
 	case kindIsFloat(from) && kindIsInt(to):
 		if c.Mode == Math {
+			if x.T.Kind == sym.TApp && x.T.Head == "to_real" {
+				return c.mkval(c.wrapInt(x.T.Args[0], to), to)
+			}
 			zero := b.RealC(new(big.Rat))
 			neg := b.RealBin("-", zero, x.T)
 			tr := b.Ite(b.RealCmp(">=", x.T, zero), b.ToIntFloor(x.T), b.IntNeg(b.ToIntFloor(neg)))
